@@ -10,7 +10,7 @@ EXPLANATION = ('Deductive: natural_mass_ratio (loop over atoms cut at two SumOve
 
 
 def units(tier):
-    return (([F.U_ION_MASS, F.U_NAT_RATIO, F.U_NATDENS_GET, F.U_NATDENS_SET] + F.U_INIT + F.U_CELL_VOLUME + [F.U_CELL_VOLUME_MISSING] + F.U_VOLUME + [F.U_SUBSTITUTION] + F.U_FORMULA_OF_FORMULA) + W.U_FORMULA_REPLACE) + [K.L_ATOM_IDENTITY]
+    return (([F.U_ION_MASS, F.U_NAT_RATIO, F.U_NATDENS_GET, F.U_NATDENS_SET] + F.U_INIT + F.U_CELL_VOLUME + [F.U_CELL_VOLUME_MISSING] + F.U_VOLUME + [F.U_SUBSTITUTION] + F.U_FORMULA_OF_FORMULA) + W.U_FORMULA_REPLACE) + [K.L_ATOM_IDENTITY] + F.U_FORMULA_KINDS_NATURAL + F.U_FORMULA_STRING
 
 
 def runner_tasks(tier):
